@@ -4,7 +4,7 @@ import random
 from .common import hexf, hexbytes
 
 
-def records(rng, N=None, L=None, nrec=None, wt="u", maxw=3, labels=None, ensure_two=True):
+def records(rng, N=None, L=None, nrec=None, wt="u", maxw=3, labels=None, ensure_two=True, heavy=None):
     """structured, mostly-valid edge list: list of (src, dst, [w_1..w_L]) over label list"""
     N = N or rng.randint(2, 7)
     L = L or rng.randint(1, 3)
@@ -46,6 +46,20 @@ def records(rng, N=None, L=None, nrec=None, wt="u", maxw=3, labels=None, ensure_
                 w = -rng.randint(0, 2)
             ws.append(w)
         recs.append((labels[s], labels[d], ws))
+    # a heavy run: one record repeated consecutively with large integer weights (hundreds to thousands of
+    # parallel edges between one pair, spread over several records)
+    if heavy is None:
+        heavy = wt in "ul" and rng.random() < 0.06
+    if heavy and recs and wt in "ul":
+        at = rng.randrange(len(recs))
+        s0, d0, _ = recs[at]
+        a0 = rng.randrange(L)
+        run = []
+        for _ in range(rng.randint(2, 3)):
+            ws = [rng.choice([0, 1]) for _ in range(L)]
+            ws[a0] = rng.choice([400, 700, 1001, 1500])
+            run.append((s0, d0, ws))
+        recs[at + 1:at + 1] = run
     if ensure_two and len({x for r in recs for x in r[:2]}) < 2:
         recs.append((labels[0], labels[1], [1] * L))
     return recs, L
@@ -101,11 +115,13 @@ def case_sweep(cid, directed, assort, K, recs, L, wt, N, u, v, w, it0=0, co0=0, 
 
 
 def case_run(cid, directed, assort, init, K, lt, recs, L, wt, r, maxit, nconv, seed, prior=0.0, tr=0,
-             script=(), aff=None):
+             script=(), aff=None, vshape=0):
     if aff is None:
         aff = [0.0] * ((K if assort else K * K) * L)
     t = [cid, "run", str(int(directed)), str(int(assort)), init, str(K), lt] + recs_tokens(recs, L, wt)
     t += [str(r), str(maxit), str(nconv), str(seed), hexf(prior), str(tr)] + flist(list(script)) + flist(aff)
+    if vshape:
+        t.append(str(vshape))   # prior shape of the in-membership container (see harness op_run_t)
     return " ".join(t)
 
 
